@@ -130,6 +130,8 @@ func c13Run(c *fw.Case) {
 					fmt.Sprintf("SELECT %s, COUNT(*) AS n FROM %s GROUP BY %s", col2, tname, col2),
 					fmt.Sprintf("SELECT rid, (SELECT e%s FROM nested%s) AS s FROM %s ORDER BY %s, rid", sfx, sfx, tname, col),
 					fmt.Sprintf("SELECT x.rid FROM %s x JOIN %s y ON x.%s = y.%s", tname, tname, col, col),
+					fmt.Sprintf("SELECT x.rid, y.rid FROM %s x PARALLEL JOIN %s y ON x.%s <= y.%s", tname, tname, col, col),
+					fmt.Sprintf("SELECT x.rid, y.rid FROM %s x PARALLEL LEFT JOIN %s y ON x.%s < y.%s OR x.%s = y.%s", tname, tname, col, col, col2, col2),
 				})
 				jobs[g] = append(jobs[g], &c13Job{doc: doc, sql: sql, multiset: strings.Contains(sql, "JOIN")})
 			}
